@@ -8,11 +8,11 @@ namespace BtcVerif.Model.Heap
 open BtcVerif BtcVerif.Spec.ValueSem BtcVerif.Spec.AliasSem BtcVerif.Model.HeapX
 
 theorem invx_alloc_write {h : Heap} (hinv : InvX h) {p : Plan} (hg : GoodX h p) {x : Addr} {ox : Obj}
-    (hox : h[x]? = some ox) (hmx : ox.isMut = true) (hkx : ox.sc.kind ≠ 10) {o' : Obj} (hm' : o'.isMut = true)
+    (hox : h[x]? = some ox) (hmx : ox.isMut = true) {o' : Obj} (hm' : o'.isMut = true)
     (hk' : o'.sc.kind = ox.sc.kind) (ht' : TypedObj (allocPlan h p).1 o') :
     TrX h ((allocPlan h p).1.set x o') := by
   obtain ⟨t1, ⟨e, he⟩, _⟩ := trx_alloc hinv hg
-  exact t1.trans (trx_write t1.inv (by rw [he]; exact getElem?_append_of_some e hox) hmx hkx hm' hk' ht')
+  exact t1.trans (trx_write t1.inv (by rw [he]; exact getElem?_append_of_some e hox) hmx hm' hk' ht')
 
 theorem applySc_kind {f : Field} {sc sc' : Scalars} (h : applySc f sc = some sc') : sc'.kind = sc.kind := by
   cases f <;> cases sc <;> simp [applySc] at h <;> subst h <;> rfl
@@ -140,7 +140,7 @@ theorem invx_setTxRef {h : Heap} (hinv : InvX h) {a : Addr} {o : Obj} {vi vo w :
       | 1, hj => simp at hj; exact ⟨vo, rfl, by rw [← hj]; exact k2⟩
       | 2, hj => simp at hj; exact ⟨w, rfl, by rw [← hj]; exact k3⟩
     obtain ⟨cur, hc1, hc2⟩ := hcur
-    refine t1.trans (trx_write hi1 ho1 hm (by rw [hk5]; decide)
+    refine t1.trans (trx_write hi1 ho1 hm
       (o' := { o with refs := o.refs.set j (allocPlan h p).2 }) hm rfl ?_)
     apply typed_setSlot (hi1.typed a o ho1) hc1
     rw [hkr k hk, he, kindAt_append_some e hc2]
@@ -153,9 +153,7 @@ theorem invx_listAppendFresh {h : Heap} (hinv : InvX h) {l : Addr} {lo : Obj} (h
   obtain ⟨t1, ⟨e, hee⟩, hkr⟩ := trx_alloc hinv hg
   have hi1 := t1.inv
   have hlo1 : (allocPlan h p).1[l]? = some lo := by rw [hee]; exact getElem?_append_of_some e hlo
-  have h10 : lo.sc.kind ≠ 10 := by
-    intro h10; rw [h10] at he; simp [elemKind] at he
-  exact t1.trans (trx_write hi1 hlo1 hm h10 (o' := { isMut := true, sc := lo.sc, refs := lo.refs ++ [(allocPlan h p).2], cHash := lo.cHash, cPy := lo.cPy }) rfl rfl
+  exact t1.trans (trx_write hi1 hlo1 hm (o' := { isMut := true, sc := lo.sc, refs := lo.refs ++ [(allocPlan h p).2], cHash := lo.cHash, cPy := lo.cPy }) rfl rfl
     (typed_listAppend (hi1.typed l lo hlo1) he (hkr ek hk)))
 
 theorem invx_listSetFresh {h : Heap} (hinv : InvX h) {l : Addr} {lo : Obj} (hlo : h[l]? = some lo)
@@ -165,9 +163,7 @@ theorem invx_listSetFresh {h : Heap} (hinv : InvX h) {l : Addr} {lo : Obj} (hlo 
   obtain ⟨t1, ⟨e, hee⟩, hkr⟩ := trx_alloc hinv hg
   have hi1 := t1.inv
   have hlo1 : (allocPlan h p).1[l]? = some lo := by rw [hee]; exact getElem?_append_of_some e hlo
-  have h10 : lo.sc.kind ≠ 10 := by
-    intro h10; rw [h10] at he; simp [elemKind] at he
-  exact t1.trans (trx_write hi1 hlo1 hm h10 (o' := { isMut := true, sc := lo.sc, refs := lo.refs.set i (allocPlan h p).2, cHash := lo.cHash, cPy := lo.cPy }) rfl rfl
+  exact t1.trans (trx_write hi1 hlo1 hm (o' := { isMut := true, sc := lo.sc, refs := lo.refs.set i (allocPlan h p).2, cHash := lo.cHash, cPy := lo.cPy }) rfl rfl
     (typed_listSet (hi1.typed l lo hlo1) he i (hkr ek hk)))
 
 theorem invx_base_core {s : St} (hinv : InvX s.heap) : ∀ (op : Op), coreOp op = true ∨ (∃ h t, op = .newBlock h t) →
@@ -175,23 +171,23 @@ theorem invx_base_core {s : St} (hinv : InvX s.heap) : ∀ (op : Op), coreOp op 
   | .newTx v, _ => by
     simp only [Model.Heap.step]
     split
-    · exact (trx_alloc hinv (goodX_planTx true v (goodX_planWit _ _) (Or.inl rfl) rfl)).1
+    · exact (trx_alloc hinv (goodX_planTx true v (goodX_planWit _ _) rfl rfl)).1
     · exact TrX.refl hinv
   | .newCTx v, _ => by
     simp only [Model.Heap.step]
     split
     · split
       · obtain ⟨o0, o1, _, _, _, _, h1, b1, b2, _⟩ := hinv.defaults
-        refine (trx_alloc hinv (goodX_planTx false v (wp := .ref defaultWit) ?_ ⟨o1, h1, Or.inl b1⟩ ?_)).1
+        refine (trx_alloc hinv (goodX_planTx false v (wp := .ref defaultWit) ?_ ⟨o1, h1, b1⟩ ?_)).1
         · exact (List.getElem?_eq_some_iff.mp h1).1
         · simp [rootKindP, kindAt, h1, b2, Scalars.kind]
-      · exact (trx_alloc hinv (goodX_planTx false v (goodX_planWit _ _) (Or.inl rfl) rfl)).1
+      · exact (trx_alloc hinv (goodX_planTx false v (goodX_planWit _ _) rfl rfl)).1
     · exact TrX.refl hinv
   | .newHeader v, _ => by
     simp only [Model.Heap.step]
     split
     · have : GoodX s.heap (.node false (.header v) []) :=
-        ⟨fun _ _ => rfl, fun _ k hk => by simp at hk, ⟨[], rfl, rfl⟩, trivial⟩
+        ⟨fun _ => rfl, fun _ k hk => by simp at hk, ⟨[], rfl, rfl⟩, trivial⟩
       exact (trx_alloc hinv this).1
     · exact TrX.refl hinv
   | .newBlock hdr txs, _ => by
@@ -221,8 +217,8 @@ theorem invx_base_core {s : St} (hinv : InvX s.heap) : ∀ (op : Op), coreOp op 
               obtain ⟨et, _, het⟩ := mapO_mem' h2 ha
               exact ⟨g1, by rw [g2, i2, entryAt_kind het], g3 rfl⟩
             refine i1.trans (trx_alloc i1.inv ?_).1
-            refine ⟨fun _ _ => rfl, ?_, ⟨[11], rfl, rfl⟩, ⟨fun _ _ => rfl, ?_, ⟨plans.map (fun _ => 5), ?_, ?_⟩, ?_⟩, trivial⟩
-            · intro _ k hk; simp only [List.mem_singleton] at hk; subst hk; exact Or.inl rfl
+            refine ⟨fun _ => rfl, ?_, ⟨[11], rfl, rfl⟩, ⟨fun _ => rfl, ?_, ⟨plans.map (fun _ => 5), ?_, ?_⟩, ?_⟩, trivial⟩
+            · intro _ k hk; simp only [List.mem_singleton] at hk; subst hk; exact rfl
             · intro _ k hk; exact (hpl k hk).2.2
             · exact mapO_const _ 5 _ (fun p hp => (hpl p hp).2.1)
             · show refKindsK 11 _
@@ -260,7 +256,7 @@ theorem invx_base_core {s : St} (hinv : InvX s.heap) : ∀ (op : Op), coreOp op 
             | some sc' =>
               have hk := applySc_kind hap
               obtain ⟨ks, hks, hok⟩ := hinv.typed x o ho
-              exact trx_write hinv ho hm (kind_lt8_of_notSeq hs')
+              exact trx_write hinv ho hm
                 (o' := { isMut := true, sc := sc', refs := o.refs, cHash := o.cHash, cPy := o.cPy }) rfl hk
                 ⟨ks, hks, by simp only [refKindsOK, hk]; exact hok⟩
           · have hm' : o.isMut = false := by simpa using hm
@@ -422,7 +418,7 @@ theorem invx_base_core {s : St} (hinv : InvX s.heap) : ∀ (op : Op), coreOp op 
             have hkl : lo.sc.kind = 8 := by simpa [kindAt, hlo] using k1
             by_cases hi : i < lo.refs.length
             · simp only [hi, if_true]
-              exact trx_write hinv hlo hm (by rw [hkl]; decide)
+              exact trx_write hinv hlo hm
                 (o' := { isMut := true, sc := lo.sc, refs := lo.refs.eraseIdx i, cHash := lo.cHash, cPy := lo.cPy })
                 rfl rfl (typed_listErase (hinv.typed vi lo hlo) (by rw [hkl]; rfl) i)
             · simp only [hi, if_false]; exact TrX.refl hinv
@@ -496,7 +492,7 @@ theorem invx_base_core {s : St} (hinv : InvX s.heap) : ∀ (op : Op), coreOp op 
             have hkl : lo.sc.kind = 9 := by simpa [kindAt, hlo] using k2
             by_cases hi : i < lo.refs.length
             · simp only [hi, if_true]
-              exact trx_write hinv hlo hm (by rw [hkl]; decide)
+              exact trx_write hinv hlo hm
                 (o' := { isMut := true, sc := lo.sc, refs := lo.refs.eraseIdx i, cHash := lo.cHash, cPy := lo.cPy })
                 rfl rfl (typed_listErase (hinv.typed vo lo hlo) (by rw [hkl]; rfl) i)
             · simp only [hi, if_false]; exact TrX.refl hinv
